@@ -12,6 +12,10 @@ CLAIMED = {
    text="Coq theorems (any number of steps n, every selection of one point per focal step, every permutation coupling): the k-th smallest outcome lies in the k-th step of frechet_op's result for any operation nondecreasing on an upward-closed domain (instances: + on all reals, x on non-negative operands); index arithmetic j+k=i / j+k=n-1+i proved pair by pair. Tie: bit-exact in-Coq differential run of the model against frechet_op / naive Frechet (stubs, n<=8) and Pbox.add/sub/mul/div('f') + bare operators at 200 steps; exact oracle enumerates all n! couplings for n<=5 (soundness + attainment) and compares the API with an independent Frank-Nelsen-Sklar reference.",
    note="Partial: tightness is not a Coq theorem (checked exhaustively by the oracle for n<=5 and by the reference formula at n=200); the zero-straddling product route (naive + Balch + imposition) is not modelled in Coq (oracle: sampled + extremal couplings). Couplings = permutation matrices. Trusted: kernel, Reals axioms, hand model of operation.py/pbox_abc.py validated by the differential run, translate_params.py.",
    technique="Coq proof (rank/counting argument over all permutations) + in-Coq differential run + exact coupling enumeration", ref="5/C02"),
+ "C03": dict(
+   text="Coq theorems (any n, any sign, any operation): perfect_op / opposite_op / independent_op equal the sorted lower and upper endpoints of the exact interval combinations (C01 corner hulls) of step k with step k / step n-1-k / all n*n pairs; condensation picks order statistic k(n+1), inside the k-th block; + on well-formed operands is step-wise with no reordering; opposite arithmetic on the negated operand = perfect arithmetic on the step-wise negation (mirrored pairing of - and /). Tie: bit-exact in-Coq differential run of kernels (stubs) and Pbox.add/sub/mul/div(p|o|i) + bare operators at 200 steps; exact random-set oracle.",
+   note="Trusted: kernel, Reals axioms, hand model validated by the differential run; condensation index modelled on exact integers (numpy computes it in floats).",
+   technique="Coq refinement proof (model = random-set spec) + in-Coq differential run + exact random-set oracle", ref="5/C03"),
 }
 NA_REASON = "no check registered yet in this revision of the framework (work in progress, see DESIGN.md section 9)"
 base = json.load(open("/root/.vp/BASELINE.json"))
